@@ -321,9 +321,49 @@ def transform_fn(src, spec):
         tend = toks[(where_k or bo) - 1].end
         edits.append((toks[arrow + 1].start, "(%s: " % ret))
         edits.append((tend, ")"))
+    # parameter names FROM THE SOURCE (contracts may refer to them as \u00a7p0\u00a7, \u00a7p1\u00a7, ... so that renamed parameters do not matter)
+    params = []
+    po = None
+    for k in range(f["fn"], bo):
+        if toks[k].text == "(":
+            po = k
+            break
+    if po is not None:
+        pc = match_close(toks, po)
+        depth, cur = 0, []
+        for k in range(po + 1, pc + 1):
+            t = toks[k]
+            if k == pc or (t.text == "," and depth == 0):
+                names = [x.text for x in cur if x.kind == "ident" and x.text not in ("mut", "ref")]
+                if cur:
+                    # `self` forms have no ':' ; otherwise the name is the last ident before the first ':'
+                    colon = next((i for i, x in enumerate(cur) if x.text == ":"), None)
+                    if colon is None:
+                        params.append("self")
+                    else:
+                        ids = [x.text for x in cur[:colon] if x.kind == "ident" and x.text not in ("mut", "ref")]
+                        params.append(ids[-1] if ids else "_")
+                cur = []
+                continue
+            if t.text in ("(", "[", "<"):
+                depth += 1
+            elif t.text in (")", "]", ">"):
+                depth -= 1
+            cur.append(t)
+
+    def psubst(text):
+        if "\u00a7p" not in text:
+            return text
+        def rep(m):
+            i = int(m.group(1))
+            if i >= len(params):
+                raise Inconclusive("lost anchor in fn %s: parameter #%d no longer exists" % (spec["name"], i))
+            return params[i]
+        return re.sub("\u00a7p(\\d+)\u00a7", rep, text)
+
     # contract at end of signature
     if spec.get("sig"):
-        edits.append((toks[bo].start, "\n" + spec["sig"].rstrip() + "\n"))
+        edits.append((toks[bo].start, "\n" + psubst(spec["sig"]).rstrip() + "\n"))
     # loops
     lps = loops_in(toks, bo + 1, bc)
 
@@ -342,6 +382,7 @@ def transform_fn(src, spec):
         return d
 
     def subst(o, text):
+        text = psubst(text)
         if "\u00a7" not in text:
             return text
         d = loop_names(o)
@@ -363,7 +404,7 @@ def transform_fn(src, spec):
     for anchor, text in spec.get("inserts") or []:
         parts = anchor.split(":")
         if parts[0] == "fn" and parts[1] == "start":
-            edits.append((toks[bo].end, "\n" + text + "\n"))
+            edits.append((toks[bo].end, "\n" + psubst(text) + "\n"))
         elif parts[0] == "loop":
             o = int(parts[1])
             if o >= len(lps):
@@ -401,6 +442,20 @@ def transform_fn(src, spec):
     if spec.get("prefix"):
         text = spec["prefix"].rstrip() + "\n" + text
     return text
+
+
+def stub_fn(src, spec):
+    """For an item whose body can no longer carry its contract (lost loop anchor etc.): keep the real SIGNATURE with the contract and
+    replace the body - the item becomes an assumed (external_body) contract so that the rest of the unit is still checked; its own
+    obligations are reported inconclusive by the caller."""
+    toks = tokenize(src)
+    f = find_fn(src, toks, spec["name"])
+    only = dict(spec)
+    only["loops"] = {}
+    only["inserts"] = []
+    only["expect_loops"] = None
+    head = transform_fn(src[:toks[f["body_open"]].start] + "{ unimplemented!() }", only)
+    return "#[verifier::external_body]\n" + head
 
 
 def extract_fn(repo_src_root, item):
